@@ -34,6 +34,8 @@ pub(crate) struct Parser<'tokens> {
 
 impl<'tokens> Parser<'tokens> {
     pub(crate) fn new(tokens: &'tokens Tokens, input: &'tokens str) -> Self {
+        #[cfg(capy_verif)]
+        crate::verif::reset();
         Self {
             tokens,
             input,
@@ -136,6 +138,8 @@ impl<'tokens> Parser<'tokens> {
             .set(ExpectedSyntaxTrackingState::Unnamed);
 
         if self.at_eof() || self.at_set(recovery_set) {
+            #[cfg(capy_verif)]
+            crate::verif::no_progress(self.token_idx, &expected_syntax);
             let range = self.previous_token_range();
             self.errors.push(SyntaxError {
                 expected_syntax,
